@@ -463,6 +463,9 @@ def run(ctx):
     import c12
 
     ctx.include("C08.9", "prerequisite shared with C18.4: the inputs of an anonymous component call are assigned with the operator written next to each name (`<--` stays `<--`), one assignment per declared input", c18.rule_binding, only=["anonymous/"])
+    import c13
+
+    ctx.include("C08.10", "a declaration with an initialiser assigns with the operator written (`signal x <-- e;`, `signal (q, r) <-- T()(..);`), not with one derived from the declared type (shared with C13.1)", lambda c: c13.eval_declaration_split(c, "C13.1"))
     ctx.include("C08.8", "prerequisite shared with C12.2/C13.3: the lifting keeps every statement of an initialisation block and of a block, in source order (the statements a `signal x <-- e` declaration desugars to are nested in such blocks)", c12.rule_lifting, only=["statements-in-source-order", "statement-kept", "every-statement-visited"])
     rule_constraints(ctx)
     rule_constraint_lookup(ctx)
